@@ -128,11 +128,11 @@ func init() {
 	reg(v+"Symbolic", func(p *Path, _ *frame, a []Value) Value { return p.ctx.T })
 	reg(v+"Yield", func(p *Path, _ *frame, a []Value) Value { p.yield(); return nil })
 	reg(v+"Preempt", func(p *Path, _ *frame, a []Value) Value {
-		p.sched.preempt = p.boolArg(a[0]).IsTrue()
+		p.sched.preempt = p.branch(p.boolArg(a[0]))
 		return nil
 	})
 	reg(v+"PermuteMaps", func(p *Path, _ *frame, a []Value) Value {
-		p.mapPerm = p.boolArg(a[0]).IsTrue()
+		p.mapPerm = p.branch(p.boolArg(a[0]))
 		return nil
 	})
 	// Recovered runs f and reports whether it panicked (the panic, if any, is swallowed).
